@@ -349,7 +349,13 @@ func (conn *Conn) read(ctx *Context, async bool) {
 		if err != nil {
 			err = errors.New("reading error body: " + err.Error())
 		}
-		call.done()
+		if conn.readSched != nil && call.upgrade.NoResponse != noResponse {
+			// With pipelining, failed calls are signalled through the same
+			// ordered queue as successful ones to keep the issue order.
+			conn.readSched.Schedule(call.done)
+		} else {
+			call.done()
+		}
 		conn.bufferPool.PutBuffer(ctx.buffer)
 		putContext(ctx)
 	default:
